@@ -57,7 +57,7 @@ def variants(row, tier):
     axes = [
         [("oblique",), ("nonterm",), ("eq_ab",), ("eq_bc",), ("eq_ac",)],
         [("two_letter",), ("twelve",), ("half_occ",), ("precise",)],
-        [("from_cif",), ("from_res",)],
+        [("from_cif",), ("from_res",), ("from_rich_cif",)],
         [("file",)],
         [(2,)],
     ]
@@ -141,6 +141,15 @@ def build(row, cellvar, asymkey, provenance):
                           occupation=occ, titl="t%d" % row["number"])
     if provenance == "from_cif":
         c = Crystal.from_cif_string(c.to_cif_string())
+    elif provenance == "from_rich_cif":
+        # a refinement-style source: further loops that share the atom_site / symmetry prefixes but have other lengths,
+        # and unrelated scalars / loops (everything the crystal may carry along and re-emit)
+        n_aniso = max(1, (len(labels) + 1) // 2)
+        extra = ["_refine_ls_R_factor_gt 0.0412", "_exptl_crystal_colour 'pale yellow'", "loop_", "_atom_site_aniso_label", "_atom_site_aniso_U_11", "_atom_site_aniso_U_22"]
+        extra += ["%s 0.0%d1 0.0%d2" % (lab, i + 1, i + 1) for i, lab in enumerate(list(labels)[:n_aniso])]
+        extra += ["loop_", "_geom_bond_atom_site_label_1", "_geom_bond_atom_site_label_2", "_geom_bond_distance"]
+        extra += ["%s %s 1.%d" % (labels[0], labels[-1], k) for k in range(3 if len(labels) != 3 else 5)]
+        c = Crystal.from_cif_string(c.to_cif_string().rstrip("\n") + "\n" + "\n".join(extra) + "\n")
     elif provenance == "from_res":
         c = Crystal.from_shelx_string(c.to_shelx_string(), titl="t%d" % row["number"])
     return c, cell
@@ -354,7 +363,7 @@ def run(ctx):
     table = symm.load_table()
     nvar = len(variants(table[0], ctx.tier))
     ctx.rule = ("530 settings x {CIF, .res, POSCAR} x %d variants within %d deviation(s) of the default (cell: oblique / non-terminating / accidentally equal lengths a=b, b=c, a=c; asymmetric unit: "
-                "two-letter elements+suffix labels / 12 atoms / half occupancies / 12-digit coordinates; provenance: from CIF / from .res; route: "
+                "two-letter elements+suffix labels / 12 atoms / half occupancies / 12-digit coordinates; provenance: from CIF / from a refinement-style CIF with extra same-prefix loops of other lengths / from .res; route: "
                 "files incl. POSCAR, CONTCAR; two generations); states = settings, transitions = save->load steps, traces = texts read by the "
                 "independent reference readers" % (nvar, 2 if ctx.thorough else 1))
     ctx.bounds = {"settings": len(table), "variants_per_setting": nvar, "formats": list(FORMATS)}
